@@ -1057,6 +1057,10 @@ func (c *BytecodeCompiler) compileMethodBody(location *position.Location, parame
 	if c.isAsync && !c.isGenerator {
 		// the thread pool is passed as a hidden last argument
 		poolVar = c.defineLocal("_pool", location)
+		if poolVar == nil {
+			// a parameter of the method is called `_pool`
+			return
+		}
 		paramCount++
 		c.predefinedLocals++
 		c.bytecode.IncrementOptionalParameterCount()
